@@ -19,8 +19,19 @@ fn back(x: &str) -> String {
     x.replace('\u{e9}', "~e~").replace('\u{c9}', "~E~")
 }
 
-fn source(tpl: &Value) -> String {
-    tpl.as_array().unwrap().iter().map(|it| if it[0] == "lit" { it[1].as_str().unwrap().to_string() } else { format!("@{}", it[1].as_str().unwrap()) }).collect()
+/// the twin spelling of a marker name: second letter in upper case (a, aB, aBc: still prefixes of one another)
+fn camel(n: &str, on: bool) -> String {
+    if !on || n.len() < 2 {
+        return n.to_string();
+    }
+    let mut c = n.chars();
+    let first = c.next().unwrap();
+    let second = c.next().unwrap();
+    format!("{}{}{}", first, second.to_ascii_uppercase(), c.as_str())
+}
+
+fn source_as(tpl: &Value, twin: bool) -> String {
+    tpl.as_array().unwrap().iter().map(|it| if it[0] == "lit" { it[1].as_str().unwrap().to_string() } else { format!("@{}", camel(it[1].as_str().unwrap(), twin)) }).collect()
 }
 
 fn instantiate(tpl: &Value, inst: &Value) -> String {
@@ -74,18 +85,17 @@ fn observe_many(router: &Router<Rule>, config: &RouterConfig, path: &str, host: 
     json!({"m": true, "loc": back(&get("Location")), "hf": back(&get("X-V")), "bf": back(&bf)})
 }
 
-pub fn run(case: &Value) -> Vec<Value> {
-    let r = &case["rule"];
-    let inst = &case["inst"];
+fn build(r: &Value, config: &RouterConfig, twin: bool) -> Router<Rule> {
+    let source = |t: &Value| source_as(t, twin);
     let markers: Vec<Value> = r["markers"].as_object().unwrap().iter().map(|(n, m)| {
-        json!({"name": n, "regex": s(m, "regex"), "transformers": m["chain"].as_array().unwrap().iter().map(|t| transformer(t.as_str().unwrap())).collect::<Vec<Value>>()})
+        json!({"name": camel(n, twin), "regex": s(m, "regex"), "transformers": m["chain"].as_array().unwrap().iter().map(|t| transformer(t.as_str().unwrap())).collect::<Vec<Value>>()})
     }).collect();
     let has = |k: &str| !r[k].as_array().unwrap().is_empty();
     // explicitly declared variables (one per marker, shortest name first, then request derived ones)
     let mut names: Vec<String> = r["markers"].as_object().unwrap().keys().cloned().collect();
     names.sort_by(|a, b| a.len().cmp(&b.len()).then(a.cmp(b)));
     let variables: Vec<Value> = if r["vars"].as_bool().unwrap_or(false) {
-        names.iter().map(|n| json!({"name": n, "type": {"marker": n}})).collect()
+        names.iter().map(|n| json!({"name": camel(n, twin), "type": {"marker": camel(n, twin)}})).collect()
     } else {
         vec![]
     };
@@ -98,13 +108,32 @@ pub fn run(case: &Value) -> Vec<Value> {
         "body_filters": [{"action": "append_text", "content": source(&r["bfv"]), "id": null, "target_hash": null}],
     });
     let rule: Rule = serde_json::from_value(rule_json).expect("rule json");
-    let config = RouterConfig::default();
     let mut router = Router::<Rule>::from_config(config.clone());
     router.insert(rule);
+    router
+}
+
+pub fn run(case: &Value) -> Vec<Value> {
+    let r = &case["rule"];
+    let inst = &case["inst"];
+    let has = |k: &str| !r[k].as_array().unwrap().is_empty();
+    let config = RouterConfig::default();
+    let router = build(r, &config, false);
     let path = instantiate(&r["path"], inst);
     let host = if has("host") { Some(instantiate(&r["host"], inst)) } else { Some("example.com".to_string()) };
     let hv = if has("hdr") { Some(instantiate(&r["hdr"], inst)) } else { None };
     let o1 = observe(&router, &config, &path, host.clone(), hv.clone().map(|v| ("X-K".to_string(), v)));
+    // twin 1: the same router after a cache warm-up (capture expressions compiled in place)
+    let mut cached = build(r, &config, false);
+    cached.cache(Some(1000));
+    let oc = observe(&cached, &config, &path, host.clone(), hv.clone().map(|v| ("X-K".to_string(), v)));
+    // twin 2: every ignore-case flag set, marker names in camel case (a, aB, aBc)
+    let mut icfg = RouterConfig::default();
+    icfg.ignore_host_case = true;
+    icfg.ignore_path_and_query_case = true;
+    icfg.ignore_header_case = true;
+    let irouter = build(r, &icfg, true);
+    let oi = observe(&irouter, &icfg, &path, host.clone(), hv.clone().map(|v| ("X-K".to_string(), v)));
     // the header sent several times: a value the pattern cannot accept after / before the instantiated one
     let (oa, ob) = match &hv {
         Some(v) => (
@@ -114,5 +143,5 @@ pub fn run(case: &Value) -> Vec<Value> {
         None => (o1.clone(), o1.clone()),
     };
     let o2 = observe(&router, &config, &path, host, hv.map(|v| ("x-k".to_string(), v)));
-    vec![json!({"ev": "marker", "rule": r, "inst": inst, "o": o1, "olc": o2, "oa": oa, "ob": ob})]
+    vec![json!({"ev": "marker", "rule": r, "inst": inst, "o": o1, "olc": o2, "oa": oa, "ob": ob, "oc": oc, "oi": oi})]
 }
